@@ -289,7 +289,7 @@ def cases(ctx):
     for t in chosen:
         yield "exh-depth2", t, None
     nrand = 600 if tier == "quick" else 8000
-    pool = ["A", "B", "C", "D", "E", "my feat", "x-y", "ñ", "NOT", "or"]
+    pool = ["A", "B", "C", "D", "E", "my feat", "x-y", "ñ", "NOT", "or", "g", "-g", "2024", "\u0663"]
     done = 0
     while done < nrand:
         t = g.ctc(pool, gen.LOGICAL, g.rng.choice([3, 3, 4, 5]), 0.3)
